@@ -179,6 +179,26 @@ def _f(_o):
     return (_o.f, _o.g)
 trace("attr", _f(obj()))
 `},
+	{"attr-augassign-effectful-object", false, true, `
+def _f():
+    _os = [obj(), obj()]
+    _os[0].n = 1
+    _os[1].n = 100
+    _k = [0]
+    def _next():
+        _k[0] += 1
+        return _k[0] - 1
+    def _get(_i):
+        trace("get", _i)
+        return _os[_i % 2]
+    _os[_next()].n += 5
+    _get(0).n += 10
+    _get(1).n *= 2
+    _os[tick() % 2].n -= t(931, 3)
+    (_get(0)).n |= 8
+    return (_os[0].n, _os[1].n, _k[0])
+trace("attr-aug", _f())
+`},
 	{"return-in-loop-in-comprehension-callee", false, true, `
 def _first(_l, _p):
     for _x in _l:
